@@ -18,7 +18,7 @@ VERIF = os.path.dirname(os.path.dirname(os.path.abspath(__file__)))
 REPO = os.environ.get("VERIF_REPO", "/repo")
 BUILD = os.path.join(VERIF, ".build")
 
-SAN_FLAGS = "-O1 -g -fno-omit-frame-pointer -fsanitize=address,undefined -fno-sanitize-recover=undefined -Wno-error -w"
+SAN_FLAGS = "-O1 -g -fno-omit-frame-pointer -fno-inline -fsanitize=address,undefined -fno-sanitize-recover=undefined -Wno-error -w"
 PLAIN_FLAGS = "-O1 -g -Wno-error -w"
 FLAGS = {"san": SAN_FLAGS, "plain": PLAIN_FLAGS}
 
